@@ -811,7 +811,7 @@ func (e *escaper) escapeText(c context, n *parse.TextNode) context {
 		c1, nread := contextAfterText(c, s[i:])
 		i1 := i + nread
 		sc, err := sanitizationContextForElementContent(c.element.name)
-		if c.state == stateText || err == nil && sc == sanitizationContextRCDATA {
+		if c.state == stateText || c.state == stateSpecialElementBody && err == nil && sc == sanitizationContextRCDATA {
 			end := i1
 			if c1.state != c.state {
 				for j := end - 1; j >= i; j-- {
